@@ -199,13 +199,25 @@ def warm(b):
         c.getArea()
 
 
+def _norm(v):
+    if v is None or isinstance(v, (bool, int, float, str)):
+        return v
+    if isinstance(v, (list, tuple)):
+        return tuple(_norm(x) for x in v)
+    if isinstance(v, dict):
+        return tuple(sorted((str(k), _norm(x)) for k, x in v.items()))
+    if hasattr(v, "tobytes") and hasattr(v, "shape"):
+        return (tuple(v.shape), v.tobytes())
+    return repr(v)
+
+
 def fingerprint(b):
     """everything a block holds: its assigned parameters, its components' parameters, names, order, location"""
     def one(o):
-        return (type(o).__name__, o.name, tuple((k, repr(v)) for k, v in sorted(o.p.items())))
+        return (type(o).__name__, o.name, tuple((k, _norm(v)) for k, v in sorted(o.p.items())))
 
     loc = b.spatialLocator
-    return (one(b), tuple(one(c) + (repr(c.temperatureInC), repr(sorted(c.p.numberDensities.items()))) for c in b),
+    return (one(b), tuple(one(c) + (float(c.temperatureInC),) for c in b),
             None if loc is None else tuple(int(x) for x in loc.getCompleteIndices()) if hasattr(loc, "getCompleteIndices") else repr(loc))
 
 
@@ -385,15 +397,405 @@ def check_rep(rep, tier, seed):
     rep.sample({"kind": "rep-case", "case": mid})
 
 
+# ------------------------------------------------------------------------------------------------------------
+# 3. the manager: a real Reactor/Core with one assembly of generated blocks, a real CrossSectionGroupManager
+# ------------------------------------------------------------------------------------------------------------
+REFUSAL_TEXT = "mixture of zero and non-zero weighting factors"
+BOOKKEEPING = ("envGroup", "envGroupNum")  # refreshed by the manager-level calls by specification
+
+
+def block_fingerprint(b):
+    f = fingerprint(b)
+    head = f[0]
+    return ((head[0], head[1], tuple(kv for kv in head[2] if kv[0] not in BOOKKEEPING)), f[1], f[2])
+
+
+class ManagerAdapter:
+    def __init__(self, scenarios):
+        armi_ready()
+        self.scn = scenarios
+        self._cs = {}
+        self._worlds = {}
+
+    def settings(self, name):
+        """case settings of a scenario (built once: the manager only reads them and applies idempotent defaults)"""
+        if name not in self._cs:
+            from armi import settings
+
+            s = self.scn[name]
+            ctl = {}
+            for c in s["ctl"]:
+                o = c["opt"]
+                ctl[c["id"]] = {"geometry": "0D", "blockRepresentation": o["rep"],
+                                "validBlockTypes": ALL_TYPES if o["filter"] == "all" else FILTER_TYPES[o["filter"]],
+                                "averageByComponent": o["byComp"]}
+            self._cs[name] = settings.Settings().modified(newSettings={
+                "buGroups": list(s["bub"]), "tempGroups": list(s["tb"]), "xsBlockRepresentation": s["grep"],
+                "disableBlockTypeExclusionInXsGeneration": s["gfilter"] == "all", "crossSectionControl": ctl})
+        return self._cs[name]
+
+    def build(self, name, dyn):
+        """A world for the initial state (scenario, dyn).  Reactors are kept per initial state and re-used: the dynamic
+        values (burnup, fuel temperature, flux, environment group) are put back and the complete fingerprint must then
+        equal the one taken when the reactor was new; otherwise (something else was changed) it is rebuilt."""
+        from armi.physics.neutronics import crossSectionGroupManager as xsgm
+
+        key = (name, json.dumps(dyn))
+        hit = self._worlds.get(key)
+        if hit is not None:
+            r, blocks, base = hit
+            for b, d in zip(blocks, dyn):
+                b.p.percentBu, b.p.flux = float(d[0]), float(d[2])
+                sorted(b.getComponents())[0].temperatureInC = float(d[1])
+                b.p.envGroup = "A"
+            if [fingerprint(b) for b in blocks] != base or list(r.core.getBlocks()) != blocks:
+                del self._worlds[key]
+                hit = None
+        if hit is None:
+            r = self.fresh(name, dyn)
+            blocks = r.core.getBlocks()
+            for b in blocks:
+                warm(b)
+                b.p.envGroup = "A"
+            self._worlds[key] = (r, blocks, [fingerprint(b) for b in blocks])
+        csm = xsgm.CrossSectionGroupManager(r, self.settings(name))
+        csm.interactBOL()
+        w = {"scn": self.scn[name], "r": r, "csm": csm, "blocks": blocks, "err": "", "groups": None, "changed": None,
+             "fp": [block_fingerprint(b) for b in blocks]}
+        orig = csm.makeCrossSectionGroups
+
+        def spy():  # observation only: keep the collections the manager works with
+            g = orig()
+            w["groups"] = g
+            return g
+
+        csm.makeCrossSectionGroups = spy
+        return w
+
+    def fresh(self, name, dyn):
+        from armi.reactor import assemblies, blueprints, geometry, grids, reactors
+
+        s = self.scn[name]
+        r = reactors.Reactor("c20", blueprints.Blueprints())
+        core = reactors.Core("Core")
+        r.add(core)
+        core.spatialGrid = grids.HexGrid.fromPitch(16.0)
+        core.spatialGrid.geomType = geometry.GeomType.HEX
+        core.spatialGrid.symmetry = str(geometry.SymmetryType(geometry.DomainType.FULL_CORE, geometry.BoundaryType.NO_SYMMETRY))
+        core.spatialGrid.armiObject = core
+        a = assemblies.HexAssembly("fuel", assemNum=1)
+        a.spatialGrid = grids.AxialGrid.fromNCells(len(dyn))
+        a.spatialGrid.armiObject = a
+        for i, (rec0, d) in enumerate(zip(s["blk"], dyn)):
+            rec = dict(rec0)
+            rec["bu"], rec["w"] = d[0], d[2]
+            rec["t"] = [d[1], rec0["t"][1]]
+            b = make_block("b%d" % i, rec)
+            b.p.xsType = s["xs"][i]
+            a.add(b)
+        a.calculateZCoords()
+        core.add(a, core.spatialGrid[0, 0, 0])
+        r.blueprints.allNuclidesInProblem = list(NUC)
+        return r
+
+    def apply(self, w, a):
+        n = a["n"]
+        w["err"] = ""
+        blocks, csm = w["blocks"], w["csm"]
+        if n in ("Burn", "Heat", "Flux"):
+            b = blocks[a["i"] - 1]
+            if n == "Burn":
+                b.p.percentBu = float(a["v"])
+            elif n == "Heat":
+                sorted(b.getComponents())[0].temperatureInC = float(a["v"])
+            else:
+                b.p.flux = float(a["v"])
+            w["fp"][a["i"] - 1] = block_fingerprint(b)
+        else:
+            before = w["fp"]
+            try:
+                if n == "Disable":
+                    csm.disableEnvGroupUpdates()
+                elif n == "Enable":
+                    csm.enableEnvGroupUpdates()
+                elif n == "Make":
+                    csm.makeCrossSectionGroups()
+                elif n == "Create":
+                    with model_weights(True):
+                        try:
+                            csm.createRepresentativeBlocks()
+                        except ValueError as ex:
+                            if REFUSAL_TEXT not in str(ex):
+                                raise
+                            w["err"] = "ValueError"
+                    if not w["err"]:
+                        # which block each new representative was made from: the named member (median: a copy keeps its
+                        # name) or the first candidate of the collection (averages copy it and rename the copy)
+                        pos = {id(b): i + 1 for i, b in enumerate(blocks)}
+                        names = {b.getName(): i + 1 for i, b in enumerate(blocks)}
+                        w["src"] = {}
+                        for xsid, rb in csm.representativeBlocks.items():
+                            cands = w["groups"][xsid].getCandidateBlocks()
+                            w["src"][xsid] = names.get(rb.getName()) or (pos.get(id(cands[0]), 0) if cands else 0)
+                else:
+                    raise AssertionError("unknown action " + n)
+            finally:
+                after = w["fp"] = [block_fingerprint(b) for b in blocks]
+                for b, f0, f1 in zip(blocks, before, after):
+                    d = fingerprint_diff(f0, f1)
+                    if d:
+                        w["changed"] = "%s changed block %s: %s" % (n, b.getName(), d)
+            if list(w["r"].core.getBlocks()) != blocks:
+                w["changed"] = "%s changed the list of blocks of the core" % n
+        return w["err"]
+
+    def project(self, w, discrete=False):
+        from armi.physics.neutronics import crossSectionGroupManager as xsgm
+
+        blocks, csm = w["blocks"], w["csm"]
+        pos = {id(b): i + 1 for i, b in enumerate(blocks)}
+        names = {b.getName(): i + 1 for i, b in enumerate(blocks)}
+        cls = {v: k for k, v in xsgm.BLOCK_COLLECTIONS.items()}
+        reps = []
+        for xsid, rb in csm.representativeBlocks.items():
+            comps = sorted(rb.getComponents())
+            temps = csm.avgNucTemperatures.get(xsid) or {}
+            reps.append({
+                "id": xsid, "name": rb.getName(), "height": float(rb.getHeight()), "named": names.get(rb.getName(), 0),
+                "dens": [float(rb.getNumberDensity(nuc)) for nuc in NUC],
+                "cdens": [[float(c.getNumberDensity(nuc)) for nuc in NUC] for c in comps],
+                "ctemp": [float(c.temperatureInC) for c in comps],
+                "ntemp": [None if temps.get(nuc) is None else float(temps[nuc]) for nuc in NUC],
+                "bu": float(rb.p.percentBu)})
+        grp = []
+        for xsid, coll in (w["groups"] or {}).items():
+            vt = coll._validRepresentativeBlockTypes
+            vt = None if vt is None else sorted(str(f).split(".")[-1].lower() for f in vt)
+            filt = {None: "all", ("fuel",): "fuel", ("control", "fuel"): "fuelcontrol", ("control", "fuel", "reflector"): "all"}.get(
+                None if vt is None else tuple(vt), str(vt))
+            grp.append({"id": xsid, "mem": [pos.get(id(b), 0) for b in coll], "rep": cls.get(type(coll), type(coll).__name__),
+                        "filter": filt, "byComp": bool(coll.averageByComponent)})
+        return {"envn": [int(b.p.envGroupNum) for b in blocks], "envl": [b.p.envGroup for b in blocks], "reps": reps,
+                "unrep": list(csm._unrepresentedXSIDs), "grp": grp, "enabled": bool(csm._envGroupUpdatesEnabled), "err": w["err"]}
+
+
+def diff_manager(exp, got, scn):
+    """first difference between the specification's observation and the projection of the real manager, or None"""
+    for k in ("envn", "envl", "enabled", "err"):
+        if exp[k] != got[k]:
+            return ".%s: specification %r, observed %r" % (k, exp[k], got[k])
+    if exp["unrep"] != ["?"] and exp["unrep"] != got["unrep"]:
+        return ".unrep: specification %r, observed %r" % (exp["unrep"], got["unrep"])
+    eg = [(g["id"], g["mem"], g["rep"], g["filter"], g["byComp"]) for g in exp["grp"]]
+    gg = [(g["id"], g["mem"], g["rep"], g["filter"], g["byComp"]) for g in got["grp"]]
+    if eg != gg:
+        return ".grp: specification %r, observed %r" % (eg, gg)
+    if [r["id"] for r in exp["reps"]] != [r["id"] for r in got["reps"]]:
+        return ".reps.id: specification %r, observed %r" % ([r["id"] for r in exp["reps"]], [r["id"] for r in got["reps"]])
+    for e, g in zip(exp["reps"], got["reps"]):
+        src = e["src"]
+        if g["height"] != float(scn["blk"][src - 1]["h"]):
+            return ".reps.src: %s has height %r, its source block %d has %r" % (e["id"], g["height"], src, scn["blk"][src - 1]["h"])
+        if not g["name"].startswith("AVG_") and g["named"] != src:
+            return ".reps.src: %s is a copy of block %r, specification: block %d" % (e["id"], g["name"], src)
+        for k, x in enumerate(e["dens"]):
+            if not close(fr(x), g["dens"][k]):
+                return ".reps.dens: %s %s specification %r, observed %r" % (e["id"], NUC[k], fr(x), g["dens"][k])
+        for ci, row in enumerate(e["cdens"]):
+            for k, x in enumerate(row):
+                if not close(fr(x), g["cdens"][ci][k]):
+                    return ".reps.cdens: %s component %d %s specification %r, observed %r" % (e["id"], ci + 1, NUC[k], fr(x), g["cdens"][ci][k])
+        for ci, x in enumerate(e["ctemp"]):
+            if not close(fr(x), g["ctemp"][ci]):
+                return ".reps.ctemp: %s component %d specification %r, observed %r" % (e["id"], ci + 1, fr(x), g["ctemp"][ci])
+        for k, x in enumerate(e["ntemp"]):
+            if g["ntemp"][k] is None or not close(fr(x), g["ntemp"][k]):
+                return ".reps.ntemp: %s %s specification %r, observed %r" % (e["id"], NUC[k], fr(x), g["ntemp"][k])
+        if not close(fr(e["bu"]), g["bu"]):
+            return ".reps.bu: %s specification %r, observed %r" % (e["id"], fr(e["bu"]), g["bu"])
+    return None
+
+
+def run_behaviour(ad, edge):
+    """one emitted edge = the behaviour path[0] (initial values), path[1:] (actions); the observation after the last
+    action is compared.  Returns None or a divergence record."""
+    path = edge["path"]
+    w = ad.build(edge["scn"], path[0]["dyn"])
+    last = len(path) - 1
+    for k, a in enumerate(path[1:], 1):
+        try:
+            ad.apply(w, a)
+            got = ad.project(w) if k == last else None
+        except Exception as ex:  # noqa: BLE001  an exception escaping a legal call is a verdict
+            import traceback
+
+            where = traceback.extract_tb(ex.__traceback__)[-1].name
+            return {"at": k, "action": a, "first_difference": ".exception: %s escaped from the real code in %s: %s" % (
+                type(ex).__name__, where, str(ex)[:200]), "where": where, "trace": traceback.format_exc()[-1500:]}
+        if w["changed"]:
+            return {"at": k, "action": a, "first_difference": ".blocks: " + w["changed"]}
+    d = diff_manager(edge["obs"], got, ad.scn[edge["scn"]])
+    if d:
+        return {"at": last, "action": path[-1], "first_difference": d, "expected": edge["obs"], "observed": got}
+    return None
+
+
+def mgr_key(scn, d):
+    fd = d["first_difference"]
+    field = fd.split(":")[0]
+    if field == ".exception":
+        field = ".exception.%s.%s" % (fd.split(":")[1].split()[0], d.get("where", "?"))
+    return "mgr:%s:%s:%s" % (scn, d["action"]["n"], field)
+
+
+MGR_QUICK_EDGES = 1000
+
+
+def check_manager(rep, tier, seed):
+    armi_ready()
+    thorough = tier == "thorough"
+    if thorough and not _SELFTEST:
+        res = run_tlc("XsGroups_mc", "XsGroups_mc.cfg", want_prints=False)
+        rep.add_tlc("exhaustive:XsGroups_mc.cfg", res)
+        if res.violation:
+            rep.violation("tlc:mgr:" + res.violation["name"], "TLC: %s violated in XsGroups" % res.violation["name"],
+                          {"direction": "tlc", "trace": res.violation["trace"][:20000]})
+        never = [a for a in MGR_ACTIONS if res.coverage.get(a, (0, 0))[1] == 0]
+        if never:
+            raise tlc.MachineryError("vacuous: actions never taken in XsGroups_mc.cfg: %s" % never)
+    cfg = "XsGroups_emit%s.cfg" % ("_thorough" if thorough else "")
+    eres = run_tlc("XsGroups_mc", cfg, workers=1, coverage=False)
+    rep.add_tlc("exhaustive+edges:" + cfg, eres)
+    if eres.violation:
+        rep.violation("tlc:mgr:" + eres.violation["name"], "TLC: %s violated in XsGroups" % eres.violation["name"],
+                      {"direction": "tlc", "trace": eres.violation["trace"][:20000]})
+    scns = {}
+    for p in eres.prints:
+        if isinstance(p, dict) and "scenario" in p:
+            scns.setdefault(p["scenario"], p)
+    edges = [p for p in eres.prints if isinstance(p, dict) and "path" in p]
+    if not edges or not scns:
+        raise tlc.MachineryError("no manager edges emitted")
+    acts = {}
+    for e in edges:
+        acts[e["path"][-1]["n"]] = acts.get(e["path"][-1]["n"], 0) + 1
+    missing = [a for a in ("Burn", "Heat", "Flux", "Disable", "Enable", "Make", "Create") if not acts.get(a)]
+    if missing or not any(e["obs"]["err"] for e in edges):
+        raise tlc.MachineryError("vacuous: manager actions never explored: %s (refusals: %s)" % (missing, any(e["obs"]["err"] for e in edges)))
+    rep.extra["manager_edges"] = acts
+    ad = ManagerAdapter(scns)
+    rng = random.Random(seed * 7919 + 20)
+    todo = edges
+    if not thorough and len(edges) > MGR_QUICK_EDGES:
+        # environment edits are exercised by the longer behaviours anyway: keep every edge that ends with a manager call
+        calls = [e for e in edges if e["path"][-1]["n"] in ("Make", "Create")]
+        todo = calls if len(calls) <= MGR_QUICK_EDGES else rng.sample(calls, MGR_QUICK_EDGES)
+    n = nt = 0
+    for e in todo:
+        d = run_behaviour(ad, e)
+        n += 1
+        nt += 1 if e["path"][-1]["n"] in ("Make", "Create") else 0
+        if d:
+            rep.violation(mgr_key(e["scn"], d), "real CrossSectionGroupManager diverges from XsGroups (scenario %s) after %s: %s" % (
+                e["scn"], json.dumps([a["n"] for a in e["path"][1:]]), d["first_difference"]),
+                dict(d, direction="replay", part="mgr", edge=e, scenario=scns[e["scn"]]))
+    rep.add_replay("manager-edges", n, nt,
+                   "every explored edge of XsGroups %sis executed as a complete behaviour (initial values, actions) on a real "
+                   "Reactor/Core/CrossSectionGroupManager and the observation after it compared; non-trivial = ends with "
+                   "makeCrossSectionGroups / createRepresentativeBlocks" % ("" if thorough else "that ends with a manager call (seeded sample above %d) " % MGR_QUICK_EDGES))
+    mid = [e for e in edges if e["path"][-1]["n"] == "Create" and e["obs"]["reps"]]
+    rep.sample({"kind": "manager-edge", "scn": mid[len(mid) // 2]["scn"], "path": mid[len(mid) // 2]["path"],
+                "expected_envl": mid[len(mid) // 2]["obs"]["envl"], "expected_reps": [r["id"] for r in mid[len(mid) // 2]["obs"]["reps"]]})
+    return ad, scns
+
+
+MGR_ACTIONS = ("Disable", "Enable", "MakeGroups", "CreateReps")
+TRACE_BU = [0, 1, 3, 4, 7, 10, 11, 40]
+TRACE_T1 = [300, 400, 500, 700, 800]  # never on a temperature bound (450, 600): the real temperature is a float quotient
+TRACE_W = [0, 0, 1, 2, 3]
+
+
+def discrete(w, got):
+    """the part of the projection that XsGroups_trace compares (DObs)"""
+    return {"envn": got["envn"],
+            "reps": [{"id": r["id"], "src": w.get("src", {}).get(r["id"], 0)} for r in got["reps"]],
+            "unrep": got["unrep"] if not got["err"] else ["?"],
+            "grp": [{"id": g["id"], "mem": g["mem"]} for g in got["grp"]],
+            "enabled": got["enabled"], "err": got["err"]}
+
+
+def manager_traces(ad, scns, ntraces, nev, seed):
+    """seeded random histories on the real manager; every event is logged with the discrete observation after it"""
+    rng = random.Random(seed * 31 + 2020)
+    traces = []
+    names = sorted(scns)
+    for t in range(ntraces):
+        name = names[t % len(names)]
+        nb = len(scns[name]["blk"])
+        dyn = [[rng.choice(TRACE_BU), rng.choice(TRACE_T1), rng.choice(TRACE_W)] for _ in range(nb)]
+        ad._worlds.pop((name, json.dumps(dyn)), None)
+        w = ad.build(name, dyn)
+        cur = [list(d) for d in dyn]
+        ev = []
+        for _ in range(nev):
+            kind = rng.choice(["Burn", "Burn", "Burn", "Heat", "Flux", "Disable", "Enable", "Make", "Make", "Create", "Create", "Create", "Create"])
+            a = {"n": kind}
+            if kind in ("Burn", "Heat", "Flux"):
+                col, vals = {"Burn": (0, TRACE_BU), "Heat": (1, TRACE_T1), "Flux": (2, TRACE_W)}[kind]
+                i = rng.randrange(nb)
+                v = rng.choice([x for x in vals if x != cur[i][col]])
+                cur[i][col] = v
+                a.update(i=i + 1, v=v)
+            try:
+                ad.apply(w, a)
+                post = discrete(w, ad.project(w))
+            except Exception as ex:  # noqa: BLE001  an escaping exception ends the history; TLC rejects the event
+                import traceback
+
+                ev.append({"a": a, "post": {"exception": "%s in %s: %s" % (type(ex).__name__, traceback.extract_tb(ex.__traceback__)[-1].name, str(ex)[:160])}})
+                break
+            if w["changed"]:
+                ev.append({"a": a, "post": {"changed": w["changed"]}})
+                break
+            ev.append({"a": a, "post": post})
+        ad._worlds.pop((name, json.dumps(dyn)), None)
+        traces.append({"id": "%s%d" % (name, t), "scn": name, "dyn": dyn, "ev": ev})
+    return traces
+
+
+def check_traces(rep, tier, seed, ad, scns):
+    thorough = tier == "thorough"
+    traces = manager_traces(ad, scns, 240 if thorough else 60, 24 if thorough else 14, seed)
+    bad, stats = tracecheck.validate("XsGroups_trace", "XsGroups_trace.cfg", MODDIR, traces, timeout=3000)
+    rep.add_tlc("trace-validation:XsGroups_trace.cfg", stats["tlc"])
+    rep.add_traces("manager-histories", len(traces), sum(len(t["ev"]) for t in traces),
+                   "seeded random histories (burnup/temperature/flux edits, disable/enable, makeCrossSectionGroups, "
+                   "createRepresentativeBlocks) on real cores of the six scenarios with free initial values; every event with its "
+                   "discrete observation must be a step of XsGroups")
+    rep.sample({"kind": "trace", "id": traces[0]["id"], "dyn": traces[0]["dyn"], "events": traces[0]["ev"][:3]})
+    for b in bad:
+        tr = b["trace"]
+        k = b["matched"]
+        nxt = tr["ev"][k] if k < len(tr["ev"]) else {}
+        post = nxt.get("post", {})
+        what = "exception" if "exception" in post else "changed" if "changed" in post else "obs"
+        rep.violation("trace:%s:%s:%s" % (tr.get("scn", "?"), nxt.get("a", {}).get("n", b.get("invariant", "?")), what),
+                      "recorded manager history %s is not a behaviour of XsGroups at event %d (%s): %s" % (
+                          tr["id"], k + 1, json.dumps(nxt.get("a")), json.dumps(post if what != "obs" else b.get("mismatch", ""))[:700]),
+                      {"direction": "trace", "part": "mgr", "trace": tr, "matched": k, "tlc": b.get("tlc"), "mismatch": b.get("mismatch")})
+
+
 _SELFTEST = False
 
 
 def run(rep, tier, seed):
-    for m in ("XsGroupsLabels_mc", "XsGroupsRep_mc"):
+    for m in ("XsGroupsLabels_mc", "XsGroupsRep_mc", "XsGroups_mc", "XsGroups_trace"):
         tlc.sany(m, MODDIR)
     rep.exhaustive = True
     check_labels(rep, tier)
     check_rep(rep, tier, seed)
+    ad, scns = check_manager(rep, tier, seed)
+    check_traces(rep, tier, seed, ad, scns)
 
 
 def replay(payload):
